@@ -27,7 +27,7 @@ Impl == Target
 
 \* a Windows-typed file system answers with Windows error values: the errno of the reference becomes "WIN";
 \* modes and owners are documented as OS specific and are not compared (C17)
-WinErr(e) == IF e \in {"ok", "EOF", "CLOSED", "NOHANDLE", "NEGOFF", "EAPPENDAT", "EINVALH", "PANIC", "DEADLOCK", "EINJECTED", "LINUX-ELOOP"} THEN e ELSE "WIN"
+WinErr(e) == IF e \in {"ok", "EOF", "CLOSED", "NOHANDLE", "NEGOFF", "EAPPENDAT", "EINVALH", "PANIC", "DEADLOCK", "HANG", "EINJECTED", "LINUX-ELOOP"} THEN e ELSE "WIN"
 
 VARIABLES l,
           cands, \* the specification states the implementation may be in: a set of [st, kf] - the recorded
@@ -65,7 +65,7 @@ ResMatch(op, a0, b) ==
 Matches(o, ev) ==
     /\ ResMatch(ev.call.op, o.res, ev.res)
     \* after a panic or a deadlock the instance cannot be observed any more
-    /\ (ev.res.err \notin {"PANIC", "DEADLOCK"}) =>
+    /\ (ev.res.err \notin {"PANIC", "DEADLOCK", "HANG"}) =>
           (/\ ProjFor(o.st) = PostOf(ev)
            /\ CwdPath(o.st) = ev.cwd
            /\ ((ev.um # -1 /\ ~IsWin) => o.st.umask = ev.um)      \* the umask of the (parent) file system itself
